@@ -1,2 +1,103 @@
-(* C24 placeholder while the tie is being built *)
-From PLV Require Import Num.ShadowsModel Num.QcutModel.
+(* C24 Circuit cutting reconstructs the uncut result.
+   Statements only; every proof is `exact <lemma>` from Num/QcutProofs.v.
+   Model (Num/QcutModel.v): Gaussian-rational scalars C; n-qubit operators Op n as quad-trees of 2x2 blocks (first
+   qubit outermost); QT L m = block operators on m qubits with leaves in L; paulis = [I;X;Y;Z] in the index
+   order of the processed fragment tensors; preps = [|0>;|1>;|+>;|+i>] in the order of PREPARE_SETTINGS;
+   COB = CHANGE_OF_BASIS literally; contract = the model of _to_tensors + contract_tensors that the harness
+   evaluates against the implementation's qcut_processing_fn on every run. *)
+From Coq Require Import List ZArith QArith Qcanon Bool Permutation.
+From PLV Require Import Num.ShadowsModel Num.ShadowsProofs Num.QcutModel Num.QcutProofs.
+Import ListNotations.
+
+(* every 2x2 matrix (formal entries, no Hermiticity/trace condition) is 1/2 sum_P tr(rho P) P: cutting a wire
+   = measuring I, X, Y, Z upstream and re-inserting the measured Pauli downstream *)
+Theorem wirecut_identity : forall a b c d : C,
+  oscale 1 chalf (osum 1 (map (fun p => oscale 1 (pairing 1 (mkQ a b c d) (pmat p)) (pmat p)) paulis))
+  = mkQ a b c d.
+Proof. exact wirecut_id. Qed.
+Print Assumptions wirecut_identity.
+
+(* PREPARE side: each Pauli is the CHANGE_OF_BASIS combination of the four prepared states, the
+   PREPARE_SETTINGS circuits ([I], [X], [H], [H,S] on |0>) prepare exactly those states, which are pure states *)
+Theorem change_of_basis_resolves_paulis : forall p,
+  pmat p = osum 1 (map (fun s => oscale 1 (cob p s) (pstate s)) preps).
+Proof. exact prepare_resolution. Qed.
+Print Assumptions change_of_basis_resolves_paulis.
+Theorem prepare_settings_prepare_the_states : forall s,
+  density (run_prep (prep_ops s)) = pstate s
+  /\ otr 1 (pstate s) = c1 /\ oadj 1 (pstate s) = pstate s /\ omul 1 (pstate s) (pstate s) = pstate s.
+Proof. exact prepare_settings_ok. Qed.
+Print Assumptions prepare_settings_prepare_the_states.
+(* both together: the implementation's measure/prepare tables resolve the identity channel *)
+Theorem wirecut_identity_prepare_form : forall a b c d : C,
+  oscale 1 chalf
+    (osum 1 (map (fun p => oscale 1 (pairing 1 (mkQ a b c d) (pmat p))
+                                  (osum 1 (map (fun s => oscale 1 (cob p s) (pstate s)) preps))) paulis))
+  = mkQ a b c d.
+Proof. exact wirecut_prepare_form. Qed.
+Print Assumptions wirecut_identity_prepare_form.
+
+(* ONE CUT, environments of any size m (upstream) and k (downstream), arbitrary operators:
+   X = operator on env_A (x) cut wire left by the upstream fragment, OA = observable part on env_A,
+   tau = initial operator of env_B, W = Heisenberg-picture observable of the downstream fragment on cut (x) env_B.
+   The uncut value tr[(X (x) tau)(OA (x) W)] equals 1/2 sum_P <OA (x) P>_up * sum_s COB[P][s] <W>_down(s) *)
+Theorem one_cut_reconstructs_formula : forall m k (X : QT M2 m) (OA : QT C m) (tau : Op k) (W : Op (S k)),
+  uncut m k X OA tau W
+  = cmul chalf (csum (map (fun p => cmul (csum (map (fun s => cmul (cob p s) (down_prep k tau W (pstate s))) preps))
+                                         (up_meas m X OA p)) paulis)).
+Proof. exact one_cut_formula. Qed.
+Print Assumptions one_cut_reconstructs_formula.
+(* ... and this is what the executable model of the implementation's post-processing computes from the two
+   fragments' result vectors (measure fragment in tape order I,Z,X,Y; prepare fragment in order |0>,|1>,|+>,|+i>) *)
+Theorem one_cut_reconstructs : forall m k (X : QT M2 m) (OA : QT C m) (tau : Op k) (W : Op (S k)),
+  contract 1 [frag_up (up_meas m X OA); frag_down (fun s => down_prep k tau W (pstate s))]
+  = uncut m k X OA tau W.
+Proof. exact one_cut_model. Qed.
+Print Assumptions one_cut_reconstructs.
+
+(* K PARALLEL CUTS between two fragments, all k: for arbitrary operators rho (upstream, on the k cut wires) and
+   M (downstream effective observable), measuring all 4^k Pauli words and feeding all 4^k product preparations,
+   combined with the k-fold CHANGE_OF_BASIS and the factor 2^-k, gives tr(rho M) *)
+Theorem k_cuts : forall k (rho M : Op k),
+  cmul (halfpow k)
+       (csum (map (fun w => cmul (pairing k rho (pword k w))
+                                 (csum (map (fun ss => cmul (cobprod w ss) (pairing k (pprep k ss) M))
+                                            (tuples preps k))))
+                  (tuples paulis k)))
+  = otr k (omul k rho M).
+Proof. exact k_cuts_trace. Qed.
+Print Assumptions k_cuts.
+
+(* the contraction does not depend on the order in which fragments (einsum operands) are listed nor on the
+   order in which the index assignments of the cut edges are summed *)
+Theorem contraction_order_independent : forall k frs frs' asg',
+  Permutation frs frs' -> Permutation (tuples paulis k) asg' ->
+  contract_with k asg' frs' = contract k frs.
+Proof. exact contract_order_indep. Qed.
+Print Assumptions contraction_order_independent.
+
+(* cut_circuit_mc: the eight (measurement, preparation, weight) settings resolve the identity channel, and the
+   MC_STATES circuits prepare the six states *)
+Theorem mc_settings_resolve_identity : forall a b c d : C,
+  osum 1 (map (fun x : pl * mcstate * C =>
+                 oscale 1 (cmul (snd x) (pairing 1 (mkQ a b c d) (pmat (fst (fst x))))) (mc_density (snd (fst x))))
+              mc_settings)
+  = mkQ a b c d.
+Proof. exact mc_identity. Qed.
+Print Assumptions mc_settings_resolve_identity.
+Theorem mc_states_prepared : forall s, density (run_prep (mc_ops s)) = mc_density s.
+Proof. exact mc_circuits. Qed.
+Print Assumptions mc_states_prepared.
+
+(* non-vacuity / sanity: a concrete single cut.  Upstream: no environment (m = 0), state |+><+| on the cut wire;
+   downstream: no environment (k = 0), observable X: uncut value tr(|+><+| X) = 1, and the model contraction of the
+   fragment results [<I>,<Z>,<X>,<Y>] = [1,0,1,0] and [<X>_0,<X>_1,<X>_+,<X>_+i] = [0,0,1,0] gives 1 *)
+Example ex_single_cut :
+  uncut 0 0 (pstate SP) c1 c1 pX = c1
+  /\ contract 1 [frag_up (fun p => match p with PI | PX => c1 | _ => cz end);
+                 frag_down (fun s => match s with SP => c1 | _ => cz end)] = c1.
+Proof. split; apply ceqb_eq; vm_compute; reflexivity. Qed.
+Example ex_k_cuts_nontrivial :
+  reconstruct 2 (kron2 1 (pstate SI) (pstate S1)) (kron2 1 pY pZ) = copp c1
+  /\ length (tuples paulis 2) = 16%nat /\ length (tuples preps 2) = 16%nat.
+Proof. repeat split; apply ceqb_eq; vm_compute; reflexivity. Qed.
